@@ -208,14 +208,119 @@ def rexpr(node, env):
     if isinstance(node, ast.Call) and isinstance(node.func, ast.Name) and node.func.id in ('int', 'floor') \
             and len(node.args) == 1 and not node.keywords:
         return rexpr(node.args[0], env)      # operands are integers here, so int()/floor() are the identity
+    if isinstance(node, ast.Call) and is_name(node.func, 'abs') and len(node.args) == 1 and not node.keywords:
+        return '(Z.abs %s)' % rexpr(node.args[0], env)
     if isinstance(node, ast.Constant) or isinstance(node, ast.Name):
         return zexpr(node, env)
+    if isinstance(node, ast.UnaryOp) and isinstance(node.op, ast.USub):
+        return '(Z.opp %s)' % rexpr(node.operand, env)
     if isinstance(node, ast.BinOp):
         op = BIN.get(type(node.op))
         if op is None:
             raise P.Unrecognised('operator %s' % type(node.op).__name__)
         return '(%s %s %s)' % (op, rexpr(node.left, env), rexpr(node.right, env))
     raise P.Unrecognised('node %s' % type(node).__name__)
+
+
+def unit_slice(st, target, env):
+    """target[k] = slice(A, A + 1) -> gallina of A"""
+    sl = slice_assign(st, target)
+    if sl is None:
+        raise P.Unrecognised('%s[k] = slice(a, a + 1) expected' % target)
+    a0 = rexpr(sl[0], env)
+    if rexpr(sl[1], env) not in ('(Z.add %s 1)' % a0, rexpr(ast.BinOp(sl[0], ast.Add(), ast.Constant(1)), env)) \
+            and P_fold_add1(sl[0], sl[1]) is False:
+        raise P.Unrecognised('%s slice is not one element wide' % target)
+    return a0
+
+
+def P_fold_add1(a, b):
+    """is b == a + 1 for the forms  X / X + 1  and  X + c / X + (c+1) ?"""
+    try:
+        if isinstance(a, ast.BinOp) and isinstance(a.op, ast.Add) and isinstance(b, ast.BinOp) and isinstance(b.op, ast.Add) \
+                and ast.dump(a.left) == ast.dump(b.left):
+            return P.const_value(b.right) == P.const_value(a.right) + 1
+        if isinstance(b, ast.BinOp) and isinstance(b.op, ast.Add) and ast.dump(b.left) == ast.dump(a):
+            return P.const_value(b.right) == 1
+    except P.Unrecognised:
+        pass
+    return False
+
+
+def store_is(st, rhs_text):
+    return isinstance(st, ast.Assign) and ast.unparse(st.targets[0]) == 'r[tuple(sliceobj)]' \
+        and ast.unparse(st.value).replace(' ', '') == rhs_text.replace(' ', '')
+
+
+def expand_branch(X, env, out):
+    """the `d[k] > d0[k]` branch of the main loop"""
+    if len(X) != 1 or not is_range_loop(X[0], 'i', ast.parse('d[k]').body[0].value):
+        raise P.Unrecognised('expand branch: for i in range(d[k]) expected')
+    out.append('Definition rebin_expand_count (d0k dk : Z) : Z := dk.')
+    b = X[0].body
+    e = dict(env, i='i')
+    fpv, pv = assign_of(b[0], 'fp'), assign_of(b[1], 'p')
+    if fpv is None or pv is None or not (isinstance(pv, ast.BinOp) and isinstance(pv.op, ast.Div)):
+        raise P.Unrecognised('expand: fp = <int expr>; p = <num>/<den> expected')
+    out.append('Definition rebin_expand_fp (d0k dk i : Z) : Z := %s.' % rexpr(fpv, e))
+    out.append('Definition rebin_expand_p_num (d0k dk i : Z) : Z := %s.' % rexpr(pv.left, e))
+    out.append('Definition rebin_expand_p_den (d0k dk i : Z) : Z := %s.' % rexpr(pv.right, e))
+    ef = {'fp': 'fp'}
+    out.append('Definition rebin_expand_lo (fp : Z) : Z := %s.' % unit_slice(b[2], 'sliceobj0', ef))
+    if unit_slice(b[3], 'sliceobj', {'i': 'i'}) != 'i':
+        raise P.Unrecognised('expand: sliceobj[k] = slice(i, i + 1) expected')
+    sm = b[4]
+    if not (len(b) == 5 and isinstance(sm, ast.If) and is_name(sm.test, 'sample') and len(sm.body) == 1
+            and store_is(sm.body[0], 'xx[tuple(sliceobj0)]') and len(sm.orelse) == 1 and isinstance(sm.orelse[0], ast.If)):
+        raise P.Unrecognised('expand: if sample: copy else: if p < ...')
+    it = sm.orelse[0]
+    t = it.test
+    if not (isinstance(t, ast.Compare) and is_name(t.left, 'p') and isinstance(t.ops[0], ast.Lt)):
+        raise P.Unrecognised('expand: `p < bound` expected')
+    out.append('Definition rebin_expand_interp_bound (d0k dk : Z) : Z := %s.' % rexpr(t.comparators[0], env))
+    if not (len(it.orelse) == 1 and store_is(it.orelse[0], 'xx[tuple(sliceobj0)]')):
+        raise P.Unrecognised('expand: last sample copied when p >= bound')
+    ib = it.body
+    out.append('Definition rebin_expand_hi (fp : Z) : Z := %s.' % unit_slice(ib[0], 'sliceobj1', ef))
+    if assign_of(ib[1], 'rshape') is None or len(ib) != 3 or not isinstance(ib[2], ast.If):
+        raise P.Unrecognised('expand: rshape; if integer kind ... else ...')
+    kt = ast.unparse(ib[2].test)
+    if "kind == 'u'" not in kt or "kind == 'i'" not in kt or ' or ' not in kt:
+        raise P.Unrecognised('expand: integer-kind test')
+    ip, fpath = ib[2].body, ib[2].orelse
+    # integer path
+    mv = assign_of(ip[0], 'm')
+    ok = len(ip) == 7 and mv is not None \
+        and ast.unparse(ip[1]) == "lo = xx[tuple(sliceobj0)].astype('i8')" \
+        and ast.unparse(ip[2]) == "hi = xx[tuple(sliceobj1)].astype('i8')"
+    numv, qv = (assign_of(ip[3], 'num'), assign_of(ip[4], 'q')) if ok else (None, None)
+    if numv is None or qv is None:
+        raise P.Unrecognised('expand integer path: m, lo, hi, num, q expected')
+    out.append('Definition rebin_expand_m (d0k dk : Z) : Z := %s.' % rexpr(mv, env))
+    out.append('Definition rebin_expand_int_num (lo hi m i : Z) : Z := %s.'
+               % rexpr(numv, {'lo': 'lo', 'hi': 'hi', 'm': 'm', 'i': 'i'}))
+    out.append('Definition rebin_expand_int_q (num m : Z) : Z := %s.' % rexpr(qv, {'num': 'num', 'm': 'm'}))
+    sg = ip[5]
+    if not (isinstance(sg, ast.AugAssign) and isinstance(sg.op, ast.Mult) and P.const_value(sg.value) == -1
+            and isinstance(sg.target, ast.Subscript) and is_name(sg.target.value, 'q')):
+        raise P.Unrecognised('expand integer path: q[mask] *= -1 expected')
+    out.append('Definition rebin_expand_int_negate (num : Z) : bool := %s.' % bexpr(sg.target.slice, {'num': 'num'}))
+    if not store_is(ip[6], 'q.reshape(rshape)'):
+        raise P.Unrecognised('expand integer path: store of q')
+    # float path: lo + (p - fp)*(hi - lo)
+    if not (len(fpath) == 1 and store_is(fpath[0], 'xx[tuple(sliceobj0)].reshape(rshape) + '
+                                         '(p - fp) * (xx[tuple(sliceobj1)] - xx[tuple(sliceobj0)]).reshape(rshape)')):
+        raise P.Unrecognised('expand float path: lo + (p - fp)*(hi - lo) expected')
+
+
+def keep_branch(Y, out):
+    if not (len(Y) == 1 and is_range_loop(Y[0], 'i', ast.parse('d[k]').body[0].value) and len(Y[0].body) == 3):
+        raise P.Unrecognised('keep branch: copy loop expected')
+    b = Y[0].body
+    out.append('Definition rebin_keep_count (d0k dk : Z) : Z := dk.')
+    out.append('Definition rebin_keep_src (i : Z) : Z := %s.' % unit_slice(b[0], 'sliceobj0', {'i': 'i'}))
+    if unit_slice(b[1], 'sliceobj', {'i': 'i'}) != 'i' or not store_is(b[2], 'xx[tuple(sliceobj0)]'):
+        raise P.Unrecognised('keep branch: r[i] = xx[i]')
 
 
 RCMP = dict(CMP)
@@ -306,6 +411,9 @@ def generate_rebin(repo):
         A, X, B, Y, Z = three_way(tw[0])
         out.append('Definition rebin_is_expand (d0k dk : Z) : bool := %s.' % rbexpr(A, env))
         out.append('Definition rebin_is_keep (d0k dk : Z) : bool := %s.\n' % rbexpr(B, env))
+        expand_branch(X, env, out)
+        keep_branch(Y, out)
+        out.append('Definition rebin_shrink_count (d0k dk : Z) : Z := dk.')
         # shrinking branch
         fv = assign_of(Z[0], 'f')
         if fv is None or len(Z) != 2 or not is_range_loop(Z[1], 'i', ast.parse('d[k]').body[0].value):
